@@ -15,7 +15,7 @@ DEVIATIONS = [
     "wrap-value", "wrap-formal", "record-array", "multi-member", "str-typed", "int-native", "int-string-lexical",
     "int-as-long", "float-native", "float-string-lexical", "bool-typed", "bool-typed-01", "bool-json-in-$",
     "lang-with-type", "time-Z", "prefix-in-bundle-too", "prefix-bundle-only", "reverse-keys", "anon-ids-named",
-    "default-ns", "members-in-one-record-array",
+    "default-ns", "members-in-one-record-array", "typed-literal-number-$", "str-typed-number-$", "float-typed-int-$",
 ]
 
 
@@ -70,6 +70,9 @@ class Namer(object):
 def spell_value(v, namer, sites):
     k = v[0]
     if k == "str":
+        if _int_like(v[1]) and sites.on("str-typed-number-$"):
+            # xsd:string whose "$" is spelt as a JSON number: still the string
+            return OrderedDict([("$", int(v[1])), ("type", "xsd:string")])
         if sites.on("str-typed"):
             return OrderedDict([("$", v[1]), ("type", "xsd:string")])
         return v[1]
@@ -80,6 +83,9 @@ def spell_value(v, namer, sites):
         return OrderedDict([("$", lex), ("type", "xsd:long" if sites.on("int-as-long") else "xsd:int")])
     if k == "float":
         f = float(v[1])
+        if f == int(f) and abs(f) < 2 ** 53 and sites.on("float-typed-int-$"):
+            # an xsd:double whose "$" is the JSON integer 1: still the double 1.0
+            return OrderedDict([("$", int(f)), ("type", "xsd:double")])
         if sites.on("float-native"):
             return f
         return OrderedDict([("$", v[1] if sites.on("float-string-lexical") else f), ("type", "xsd:double")])
@@ -107,8 +113,16 @@ def spell_value(v, namer, sites):
             if sites.on("lang-with-type"):
                 o["type"] = "prov:InternationalizedString"
             return o
+        if dt is not None and dt.startswith(XSD) and _int_like(lex) and sites.on("typed-literal-number-$"):
+            # a literal of another XML-Schema datatype with a JSON number as "$": the datatype stays
+            return OrderedDict([("$", int(lex)), ("type", namer.name(dt))])
         return OrderedDict([("$", lex), ("type", namer.name(dt))])
     raise ValueError(v)
+
+
+def _int_like(text):
+    import re
+    return bool(re.match(r"^(0|-?[1-9][0-9]{0,15})$", text))
 
 
 def container(records, namer, sites, anon):
